@@ -46,6 +46,8 @@ struct Up {
     /// per (name index): what kind of answer this name gives, and TTLs
     plan: Arc<Vec<(&'static str, u32, u32)>>,
     names: Arc<Vec<Vec<u8>>>,
+    /// read the request the way the stream transports serialise it (append_message) instead of to_message()
+    via_append: bool,
 }
 
 #[derive(Debug)]
@@ -77,7 +79,15 @@ fn rrsig_rdata(covered: u16, marker: u32) -> Vec<u8> {
 
 impl SendRequest<RequestMessage<Vec<u8>>> for Up {
     fn send_request(&self, req: RequestMessage<Vec<u8>>) -> Box<dyn GetResponse + Send + Sync> {
-        let Ok(msg) = req.to_message() else { return Box::new(Pending(None)) };
+        let msg = if self.via_append {
+            match req.append_message(Vec::new()) {
+                Ok(ab) => ab.into_message(),
+                Err(_) => return Box::new(Pending(None)),
+            }
+        } else {
+            let Ok(m) = req.to_message() else { return Box::new(Pending(None)) };
+            m
+        };
         let Ok(q) = msg.sole_question() else { return Box::new(Pending(None)) };
         use domain::base::name::ToName;
         let qname = q.qname().to_vec().as_slice().to_vec();
@@ -250,6 +260,9 @@ struct Query {
     ad: bool,
     dnssec_ok: bool,
     case_flip: bool,
+    /// the request is made from a message that already carries an OPT record (a forwarder passing a client's query on) with
+    /// this DO bit, and no EDNS setter is called: RequestMessage documents that such a record is dropped, EDNS comes from the setters only
+    raw_opt: Option<bool>,
 }
 
 fn mk_query(q: &Query, names: &[Vec<u8>], id: u16) -> RequestMessage<Vec<u8>> {
@@ -268,6 +281,16 @@ fn mk_query(q: &Query, names: &[Vec<u8>], id: u16) -> RequestMessage<Vec<u8>> {
     mb.header_mut().set_ad(q.ad);
     let mut qb = mb.question();
     qb.push((Name::<Vec<u8>>::from_octets(n).unwrap(), Rtype::from_int(q.qtype))).unwrap();
+    if let Some(d) = q.raw_opt {
+        let mut ab = qb.additional();
+        ab.opt(|o| {
+            o.set_udp_payload_size(1232);
+            o.set_dnssec_ok(d);
+            Ok(())
+        })
+        .unwrap();
+        return RequestMessage::new(ab.into_message()).unwrap();
+    }
     let mut r = RequestMessage::new(qb.into_message()).unwrap();
     if q.dnssec_ok {
         r.set_dnssec_ok(true);
@@ -342,13 +365,14 @@ fn one_case(c: &mut Ctx, fam: &str, idx: u64, threads: bool) {
     let names2 = Arc::new(names.clone());
     let plan2 = Arc::new(plan.clone());
     let mut rng2 = rng.fork();
+    let via_append = rng.bool();
     // (query, time asked in ms, upstream log length before and after, result)
     // (query, time asked, upstream log length before and after, result, time answered)
     type Row = (Query, u64, usize, usize, Result<Vec<u8>, String>, u64);
     let res = ctx::catch(|| {
         rt.block_on(async move {
             let start = tokio::time::Instant::now();
-            let up = Up { log: log2.clone(), start, plan: plan2, names: names2.clone() };
+            let up = Up { log: log2.clone(), start, plan: plan2, names: names2.clone(), via_append };
             let mut cfg = cache::Config::new();
             cfg.set_max_validity(Duration::from_secs(max_validity));
             cfg.set_max_nxdomain_validity(Duration::from_secs(nx));
@@ -373,7 +397,7 @@ fn one_case(c: &mut Ctx, fam: &str, idx: u64, threads: bool) {
                             if rng3.chance(1, 3) {
                                 tokio::task::yield_now().await;
                             }
-                            let q = Query { name: rng3.below(nnames), qtype: *rng3.pick(&[T_A, T_A, T_TXT]), rd: rng3.bool(), cd: rng3.chance(1, 4), ad: rng3.chance(1, 3), dnssec_ok: rng3.chance(1, 3), case_flip: rng3.chance(1, 5) };
+                            let q = Query { name: rng3.below(nnames), qtype: *rng3.pick(&[T_A, T_A, T_TXT]), rd: rng3.bool(), cd: rng3.chance(1, 4), ad: rng3.chance(1, 3), dnssec_ok: rng3.chance(1, 3), case_flip: rng3.chance(1, 5), raw_opt: None };
                             let at = start.elapsed().as_millis() as u64;
                             let mut gr = conn.send_request(mk_query(&q, &names2, rng3.u16()));
                             let r = gr.get_response().await;
@@ -404,7 +428,12 @@ fn one_case(c: &mut Ctx, fam: &str, idx: u64, threads: bool) {
                 if adv_ms > 0 {
                     tokio::time::advance(Duration::from_millis(adv_ms)).await;
                 }
-                let q = Query { name: rng2.below(nnames), qtype: *rng2.pick(&[T_A, T_A, T_TXT]), rd: rng2.bool(), cd: rng2.chance(1, 4), ad: rng2.chance(1, 3), dnssec_ok: rng2.chance(1, 3), case_flip: rng2.chance(1, 5) };
+                let mut q = Query { name: rng2.below(nnames), qtype: *rng2.pick(&[T_A, T_A, T_TXT]), rd: rng2.bool(), cd: rng2.chance(1, 4), ad: rng2.chance(1, 3), dnssec_ok: rng2.chance(1, 3), case_flip: rng2.chance(1, 5), raw_opt: None };
+                if rng2.chance(1, 6) {
+                    // (what the record in the base message says does not count: the request asks for DNSSEC records only through the setter)
+                    q.raw_opt = Some(rng2.chance(2, 3));
+                    q.dnssec_ok = false;
+                }
                 let before = log2.lock().unwrap().len();
                 let mut gr = conn.send_request(mk_query(&q, &names2, rng2.u16()));
                 // a request object made now and asked for its response later (a batch made first and collected afterwards):
